@@ -60,14 +60,20 @@ FksInEntry(e) == IF e.k = "val" THEN FksInPieces(e.v)
                  ELSE IF e.k = "ranges" THEN UNION { FksInPieces(e.b[j].v) : j \in DOMAIN e.b }
                  ELSE IF e.k = "plurals" THEN UNION { FksInPieces(e.forms[f]) : f \in DOMAIN e.forms }
                  ELSE {}
-\* "an error naming the key": the two errors that quote a reference (`Invalid foreign key "T" at key "K" in locale "L"`) must name
-\* a key K that, in locale L, really holds a reference to T - not a key further up a chain of references that merely leads to it
+\* "an error naming the key": when the error text quotes the target of a reference written somewhere in the project, it must
+\* also quote a key that really holds a reference to that target (in some locale) - not a key further up a chain of references
+\* that merely leads to it.  Independent of the wording and of the order in which the message quotes things.
+TargetText(names, t) == IF t \in DOMAIN names THEN names[t] ELSE t
 AttributionTags(P, names, ld) ==
-    LET q == ld.errQuoted IN
-    IF ld.errClass \notin {"MissingForeignKey", "InvalidForeignKey"} \/ Len(q) < 3 \/ "NS" \in DOMAIN IOEnv THEN {}
-    ELSE IF q[3] \notin Range(P.locs) THEN {"error-names-an-unknown-locale"}
-    ELSE IF \E k \in DOMAIN P.vals[q[3]] : names[k] = q[2] /\ \E t \in FksInEntry(P.vals[q[3]][k]) : t \in DOMAIN names /\ names[t] = q[1] THEN {}
-    ELSE IF \E k \in DOMAIN P.vals[q[3]] : names[k] = q[2] /\ \E t \in FksInEntry(P.vals[q[3]][k]) : t \notin DOMAIN names THEN {}   \* a target outside the project's keys
+    LET Q == Range(ld.errQuoted)
+        holders == { <<k, t>> \in (DOMAIN names) \X UNION { UNION { FksInEntry(P.vals[x][k]) : k \in DOMAIN P.vals[x] } : x \in Range(P.locs) } :
+                       \E x \in Range(P.locs) : k \in DOMAIN P.vals[x] /\ t \in FksInEntry(P.vals[x][k]) }
+        projectNames == { names[k] : k \in DOMAIN names } \cup { TargetText(names, h[2]) : h \in holders }
+        QP == Q \cap projectNames IN
+    \* one name of the project quoted (a cycle, an explicit default ...): nothing to relate.  Two names quoted: one of them is the key,
+    \* the other the target, and that key must hold a reference to that target.
+    IF "NS" \in DOMAIN IOEnv \/ Cardinality(QP) # 2 THEN {}
+    ELSE IF \E h \in holders : names[h[1]] \in QP /\ TargetText(names, h[2]) \in QP /\ names[h[1]] # TargetText(names, h[2]) THEN {}
     ELSE {"error-attributed-to-a-key-that-does-not-hold-that-reference"}
 
 CaseTags(ev) ==
